@@ -326,7 +326,7 @@ def runFsm (store : Store) (subs : List WSub) : String × String × Store :=
     let k := keyOf id ty
     match upsert (idLen id) (sget store k) (fsmCand c) with
     | (_, .invalid) => ("invalid", "-", store)
-    | (_, .conflict) => ("conflict", "-", store)
+    | (_, .conflict) => ("stale_meta", "-", store)   -- ErrStaleMeta is ErrConflict: reported as a stale no-op
     | (row, .applied) => ("ok", "-", sset store k row)
     | (_, _) => ("ok", "-", store)
   | [.del id ty _] =>
@@ -338,7 +338,7 @@ def runFsm (store : Store) (subs : List WSub) : String × String × Store :=
     let k := keyOf id ty
     match wadvance (sget store k) r with
     | (_, .notfound) => ("stale_meta", "-", store)
-    | (_, .conflict) => ("conflict", "-", store)
+    | (_, .conflict) => ("stale_meta", "-", store)   -- ErrStaleMeta is ErrConflict: reported as a stale no-op
     | (row, _) => ("ok", "-", sset store k row)
   | _ =>
     -- create batch: canonical = normalized items, non-empty id and non-zero type, no duplicate (type, id),
